@@ -373,6 +373,9 @@ class HistoryRunner:
             obs["dict:" + k] = _try(lambda k=k: R.unwrap(self.canon(tl.get_config_value_as_dict(k, {UNSET: 1}))))  # type: ignore
             obs["list:" + k] = _try(lambda k=k: R.unwrap(self.canon(tl.get_config_value_as_list(k, [UNSET]))))  # type: ignore
         obs["prop:extension"] = _try(lambda: tl.extension)
+        # a Language object of the context that is not the target (js: configured by F1 / F2 only)
+        obs["other:js:extension"] = _try(lambda: lctx.get_language("js").extension)
+        obs["other:js:zjs"] = _try(lambda: R.unwrap(self.canon(lctx.get_language("js").get_config_value_as_dict("zjs", {UNSET: 1}))))  # type: ignore
         obs["prop:name"] = _try(lambda: tl.name)
         if template:
             # only at creation: a probe environment copies get_options() when it is built, so re-rendering later adds
@@ -499,6 +502,15 @@ class HistoryRunner:
             mism.append(("Language.extension", "extension", R.show(ext), repr(obs["prop:extension"])))
         if obs["prop:name"] != ("ok", lang):
             mism.append(("Language.name", "target_language", lang, repr(obs["prop:name"])))
+        # 3b. the other Language objects of the context follow the same merged configuration
+        js = R.unwrap(rc.cfg["nunavut.lang.js"])
+        jext = R.cget(js, "extension")
+        if jext is not None and jext[0] == "s" and obs["other:js:extension"] != ("ok", R.ref_as_str(jext[2])):
+            mism.append(("get_language('js').extension", "nunavut.lang.js/extension", R.show(jext), repr(obs["other:js:extension"])))
+        zjs = R.cget(js, "zjs")
+        exp_z = zjs if zjs is not None and zjs[0] == "m" else R.to_canon({UNSET: 1})
+        if obs["other:js:zjs"] != ("ok", exp_z):
+            mism.append(("get_language('js').get_config_value_as_dict", "nunavut.lang.js/zjs", R.show(exp_z), str(obs["other:js:zjs"])[:200]))
         # 4. `options` as a template sees it
         st, rows = obs["template"]
         if st != "ok":
@@ -644,6 +656,10 @@ class HistoryRunner:
                 if ev in ("F0", "F1", "F2"):
                     b.add_config_files(self.cfgdir / lang / f"{ev}.yaml")
                     rb.add_file(self.docs[lang][ev])
+                elif ev == "F21":  # two files handed over in ONE call (what --configuration a b does): F2, then F1
+                    b.add_config_files(self.cfgdir / lang / "F2.yaml", self.cfgdir / lang / "F1.yaml")
+                    rb.add_file(self.docs[lang]["F2"])
+                    rb.add_file(self.docs[lang]["F1"])
                 elif ev == "CREATE":
                     try:
                         lctx = b.create()
